@@ -4,6 +4,7 @@ Everything follows from two facts proved for every decoder of the model: it read
 sequentially (`Stable`) and it inverts the writer's encoder exactly (`Exact`); so a strict prefix
 of an encoding is an I/O error, never a value.
 -/
+import Shp.Lemmas.ShortRead
 import Shp.Lemmas.ReadAll
 import Shp.Lemmas.StableAll
 namespace Shp.C13
